@@ -61,6 +61,29 @@ def make_image(r, bankkey, style):
                     img[row.first] = r.choice([0, 1, 3, 6, 0xFA, 0xFD, 0xFF])
                 if row.bank == bankkey and row.kind == "bin":
                     img[row.first] = r.choice([0, 1])
+    if style == "text" or (style == "random" and r.random() < 0.5):
+        # string fields in every shape a unit may hold: filled to the last byte without terminator, terminated
+        # early, a non-ASCII byte before / at / after the terminator
+        for row in L.rows():
+            if row.bank == bankkey and row.kind == "str":
+                w = row.last - row.first + 1
+                shape = r.choice(["full", "full", "early", "last-ff", "first-nul", "bad-before", "bad-after"])
+                text = [r.randint(0x20, 0x7E) for _ in range(w)]
+                if shape == "early":
+                    text[r.randrange(w)] = 0
+                elif shape == "last-ff":
+                    text[-1] = 0xFF
+                elif shape == "first-nul":
+                    text[0] = 0
+                elif shape == "bad-before":
+                    k = r.randrange(1, w)
+                    text[k] = 0
+                    text[r.randrange(k)] = r.randint(0x80, 0xFF)
+                elif shape == "bad-after":
+                    k = r.randrange(w - 1)
+                    text[k] = 0
+                    text[r.randrange(k + 1, w)] = r.randint(0x80, 0xFF)
+                img[row.first:row.last + 1] = text
     if bankkey not in ("0", "0L"):
         img[2] = r.choice([0xFF, 0x00, 0x55, 0x12])
     return img
@@ -141,11 +164,13 @@ def run_single(desc, tier, seed, res):
     _mods()
     bankkey = desc["bank"]
     bank_obj, values = value_classes(bankkey)
-    styles = ["random", "zero", "ones", "addr", "tmask", "random", "random"]
+    styles = ["random", "zero", "ones", "addr", "tmask", "random", "text"]
     for name, cls, row in values:
         for k in range(desc["images"]):
             r = rng(seed, "C09", "single", bankkey, desc["rep"], name, k)
             style = styles[(k + desc["rep"]) % len(styles)]
+            if row.kind == "str" and k % 2 == 0:
+                style = "text"
             img = make_image(r, bankkey, style)
             # truncation points: around the value, and anywhere
             spec_last = L.BANKS[bankkey][0]
@@ -260,7 +285,7 @@ def run_all(desc, tier, seed, res):
     bankkey = desc["bank"]
     bank_obj, values = value_classes(bankkey)
     spec_last = L.BANKS[bankkey][0]
-    styles = ["random", "zero", "ones", "addr", "tmask", "random"]
+    styles = ["random", "zero", "ones", "addr", "tmask", "text"]
     for k in range(desc["images"]):
         r = rng(seed, "C09", "all", bankkey, desc["rep"], k)
         img = make_image(r, bankkey, styles[(k + desc["rep"]) % len(styles)])
